@@ -11,7 +11,7 @@ pub enum SpawnerPoint {
 
 pub struct Hooks {
     pub run_begin: Box<dyn Fn(usize, bool, usize, Option<usize>) + Send + Sync>,
-    pub spawner_point: Box<dyn Fn(SpawnerPoint, usize, (u8, usize)) + Send + Sync>,
+    pub spawner_point: Box<dyn Fn(SpawnerPoint, usize, &dyn Fn() -> (u8, usize)) + Send + Sync>,
     pub worker_begin: Box<dyn Fn(usize) + Send + Sync>,
     pub worker_end: Box<dyn Fn(bool) + Send + Sync>,
 }
@@ -30,7 +30,11 @@ pub(crate) fn run_begin(max_threads: usize, exact: bool, chunk: usize, len: Opti
         (h.run_begin)(max_threads, exact, chunk, len)
     }
 }
-pub(crate) fn spawner_point(p: SpawnerPoint, num_spawned: usize, has_more: (u8, usize)) {
+pub(crate) fn spawner_point(
+    p: SpawnerPoint,
+    num_spawned: usize,
+    has_more: &dyn Fn() -> (u8, usize),
+) {
     if let Some(h) = HOOKS.read().unwrap().as_ref() {
         (h.spawner_point)(p, num_spawned, has_more)
     }
